@@ -347,6 +347,63 @@ def run(ctx):
                     elif not same(avg, base[1], ctx):
                         ctx.violation("container-dependent-result", fn="dba_loop[use_c=%s]" % use_c, container=cname,
                                       reference_container=base[0], got=np.asarray(avg).tolist(), want=base[1].tolist(), series=ss)
+        # clustering over containers: same numeric content and same random seed => same clusters and centres
+        if it % 4 == 2 and n >= 3 and min(map(len, ss)) >= 2:
+            import random as _pyrandom
+            from dtaidistance.clustering.kmeans import KMeans
+            kk = rng.randint(1, min(3, n - 1))
+            cseed = rng.randrange(10 ** 6)
+            kpp = rng.random() < 0.5
+            cwin = rng.choice([None, None, 2, 3])
+            names = ["list_of_np", "tuple_of_np", "list_of_strided"] + (["matrix_C", "matrix_F", "matrix_T_view", "matrix_strided"] if equal else [])
+            # the strided collection of `collections` repeats each element; use filler that makes a stride-1 read plausible
+            cols2 = dict(cols)
+            fill = []
+            for s_ in ss:
+                w_ = np.array([rng.choice(rng.choice(ss)) for _ in range(2 * len(s_))], dtype=float)
+                w_[::2] = s_
+                fill.append(w_[::2])
+            cols2["list_of_strided"] = (fill, ("py", "c"))
+
+            def _kmeans(data, use_c):
+                np.random.seed(cseed)
+                _pyrandom.seed(cseed)
+                do = {"use_c": True} if use_c else {}
+                if cwin:
+                    do["window"] = cwin
+                m_ = KMeans(k=kk, max_it=3, max_dba_it=2, show_progress=False, initialize_with_kmeanspp=kpp, dists_options=do)
+                cl_, _ = m_.fit(data, use_parallel=False)
+                return [sorted(cl_[q_]) for q_ in sorted(cl_)], [np.asarray(x_, dtype=float).tolist() for x_ in m_.means]
+
+            def _linkage(data, use_c):
+                do = {"window": cwin} if cwin else {}
+                m_ = H.LinkageTree(dtw.distance_matrix_fast if use_c else dtw.distance_matrix, do)
+                m_.fit(data)
+                return [[float(x_) for x_ in row_] for row_ in m_.linkage]
+
+            for fname, f in (("KMeans.fit", _kmeans), ("LinkageTree.fit", _linkage)):
+                for use_c in (False, True):
+                    base = None
+                    for cname in names:
+                        data = cols2[cname][0]
+                        fp = [np.array(x_, dtype=float).tolist() for x_ in data]
+                        ctx.current("%s use_c=%s %s %r k=%d seed=%d kpp=%s window=%r" % (fname, use_c, cname, ss, kk, cseed, kpp, cwin))
+                        try:
+                            v = f(data, use_c)
+                        except Exception as e:
+                            ctx.violation("exception", fn=fname, use_c=use_c, container=cname, error=repr(e)[:300], series=ss,
+                                          k=kk, seed=cseed, kmeanspp=kpp, window=cwin)
+                            continue
+                        ctx.count("container_equivalence_checks")
+                        ctx.count("clustering_container_checks")
+                        if [np.array(x_, dtype=float).tolist() for x_ in data] != fp:
+                            ctx.violation("input-modified", fn=fname, use_c=use_c, container=cname, series=ss)
+                        if base is None:
+                            base = (cname, v)
+                        elif v != base[1]:
+                            ctx.violation("container-dependent-result", fn="%s[use_c=%s]" % (fname, use_c), container=cname,
+                                          reference_container=base[0], got=v, want=base[1], series=ss, k=kk, seed=cseed,
+                                          kmeanspp=kpp, window=cwin)
         # histories: shared settings dictionaries and model objects
         if it % 2 == 0:
             arrs = [np.array(s, dtype=float) for s in ss]
